@@ -109,6 +109,9 @@ var c11Templates = []struct {
 	{"print-shared-atom", `(list N (str shared-atom) (count (pr-str shared-atom2)))`},
 	{"print-shared-atom2", `(do (spin 1) (list (pr-str shared-atom) N (str "x" shared-atom2)))`},
 	{"deref-shared-atom", `(list (count @shared-atom) (nth @shared-atom2 1) N)`},
+	// an atom of the program's own is printed by one of its threads while another one updates it
+	{"own-atom-printed-while-swapped", `(do (def T-at (atom [N])) (let [f (future (do (swap! T-at conj 1) (spin 1) (swap! T-at conj 2) :done)) s (str T-at)] (do @f (list (count s) (str T-at)))))`},
+	{"own-atom-printed-while-reset", `(let [a (atom (list N)) f (future (do (reset! a (list N N)) (reset! a (list N N N))))] (do (pr-str a) @f (pr-str a)))`},
 	// a future that is cancelled while it is computing (its evaluation ends in the evaluator's cancellation branch)
 	{"cancel-busy-future", `(do (def T-long (fn [n] (if (> n 0) (T-long (- n 1)) :done))) (let [f (future (T-long 300))] (do (spin 2) (future-cancel f) (try @f (catch e nil)) N)))`},
 	{"cancel-busy-future2", `(let [f (future (do (spin 400) :done)) r (future-cancel f)] (do (try @f (catch e nil)) (spin 2) (list N)))`},
